@@ -1,11 +1,51 @@
 ID = "C05"
 N_QUICK = 400
-N_THOROUGH = 6000
+N_THOROUGH = 8000
 MODEL_SHOW = "show"
 DISAGREE_IS_VIOLATION = True   # observables are exactly what the property fixes
 HARNESS_TIMEOUT = 600
-RULE = ("TODO")
-TRUSTED_BASE = ["TODO"]
-ASSUMPTIONS = ["TODO"]
-TECHNIQUE = "TODO"
-LEVEL_TEXT = "TODO"
+RULE = ("exhaustive: every end cause (client close, kick, external Close, heartbeat expiry, write failure via push / via heartbeat, "
+        "illegal header, truncated frame + EOF, bad handshake JSON, undecodable message, packet-decoder error, handshake-response write failure) "
+        "x every life-cycle stage (connected / Add not yet consumed, handshake in flight, handshake done, ack in flight, working, working with "
+        "traffic, message in flight, message in flight with Add+messages not yet consumed), each with and without a bystander connection and "
+        "post-mortem pokes (push, data, kick, tick, Close on the dead session), and without the final flush; every ORDERED PAIR of causes at "
+        "every stage; every non-empty SET of the four closer operations issued concurrently from separate goroutines at every stage, also "
+        "concurrently with releasing the parked reader; heartbeat limit at 0/1/19999/20000/20001/40000 ms; id counter at 2^32-3..2^32-1/0/1 "
+        "(wrap, skip 0) and an id reused while live; heartbeat() with its REAL ticker (2 ms); random sequences of 3-60 operations over 1-3 "
+        "connections (packets of all 10 classes, holds/releases, partial front drains, ticks, pushes to live/dead/unknown ids). "
+        "Non-trivial = the owning service observed at least one session removal; distinct = distinct op sequences.")
+TRUSTED_BASE = [
+    "Coq 8.16.1 kernel + vm_compute (case evaluation, Examples); no native_compute",
+    "hand translation pomelonet/server/session/session.go (read/write/heartbeat/Close/Push), node/client/impls/pomelo/sessionsimpl.go, "
+    "node/client/impls/sessions.go, utils/common/serialid.go -> C05/Model.v, measured by this correspondence run",
+    "atomicity of the model: one step = one access to shared state (status word, latch under the session mutex, chSend, scheduler queue, "
+    "connection) plus the goroutine-local computation before it; Close() is one step because it runs under the session mutex; "
+    "sync/atomic sequentially consistent, Go channels FIFO (the scheduler queue has several producers)",
+    "Go harness harness/c05: in-memory connection with tcp_acceptor.go's GetNextMessage framing copied statement for statement, blocking "
+    "PacketDecoder wrapper (the only place a reader is held), recording IClientSessionImpl / IClientSession proxy / ISessionsHandler, "
+    "goroutine census by runtime.Stack, virtual clock common.VerifSetNowMs, hooks VerifHeartbeatTick (tick body) and VerifSetNextId; "
+    "bin/check.py JSON->Coq term printer",
+    "modelled not verified: net.Conn (buffered, TCP-like), sche.Sche (a FIFO channel drained by one goroutine), time.Ticker "
+    "(exercised for real only in the real-ticker cases), chSend capacity 9999 (never full), logger",
+    "MEASURED, not proved (property is partial): goroutines released (census of goroutines inside read/write/heartbeat = model's count of "
+    "unfinished threads at the end of every case; runtime.NumGoroutine back to its baseline after teardown) and socket released "
+    "(conn.Close called exactly once, peer end sees EOF)",
+]
+ASSUMPTIONS = [
+    "life-cycle theorems carry the guard f_reused = false (no session id handed out twice within the history); C05_fresh_if_few discharges "
+    "it while at most 2^32-1 sessions were ever added; with more, C05_ids_unique still gives distinct ids to sessions added fewer than 2^32-1 "
+    "allocations apart, but the life-cycle statement is then not proved (an id reused after removal could alias a message still in flight)",
+    "ws_acceptor.go is not driven (its GetNextMessage differs only in framing errors, which are the same packet class); oversize packets "
+    "cannot be expressed on the wire: a 3-byte length never exceeds codec.MaxPacketSize, ParseHeader's size check is dead code",
+    "the owning service processes posted closures one at a time in channel order (sche contract)",
+    "a write to a connection whose peer closed succeeds (TCP-like); only injected failures and a locally closed connection make Write fail",
+]
+TECHNIQUE = ("Coq proof (interleaving transition system of any number of connections with read/write/heartbeat/closer threads and the front's "
+             "event queue; invariants by induction over all schedules) + differential correspondence against the real ClientSession / "
+             "SessionsImpl / ClientSessions under exhaustively enumerated fault placements")
+LEVEL_TEXT = ("Machine-checked Coq theorems over ALL schedules and environment traces: single-latch lemma (a step posts Remove iff it flips "
+              "the latch; Remove and close callbacks at most once), life cycle Add . Msg* . Remove . CloseCb with messages in arrival order "
+              "and nothing after Remove at every moment, completeness at every terminal state after any end cause, pushes to removed "
+              "sessions dropped with frame, id sequence/uniqueness with the wrap written out. The harness fault sequences are proved to be "
+              "schedules of the model; model and real code are run on the same sequences each run and every handler event, callback count, "
+              "push count, goroutine count and EOF flag is compared. Partial: release of goroutines/socket is measured, not proved.")
